@@ -38,10 +38,16 @@ def rebind_identity(module, mapping):
 
 class SymRng:
     """nondeterministic random source: every draw is a fresh symbol constrained to the documented range"""
-    def __init__(self):
+    def __init__(self, only=None):
+        """only: names of the methods that are symbolic; the others use a real generator"""
+        import random
         self.calls = []
+        self.only = only
+        self.real = random.Random(12345)
 
     def getrandbits(self, k):
+        if self.only is not None and "getrandbits" not in self.only:
+            return self.real.getrandbits(k)
         if not isinstance(k, int):
             raise TypeError("getrandbits(symbolic)")
         v = SInt.var(fresh("rbits"), k) if k > 0 else 0
@@ -49,6 +55,8 @@ class SymRng:
         return v
 
     def randrange(self, lo, hi=None):
+        if self.only is not None and "randrange" not in self.only:
+            return self.real.randrange(lo, hi) if hi is not None else self.real.randrange(lo)
         if hi is None:
             lo, hi = 0, lo
         v = ZInt.var(fresh("rrange"))
